@@ -657,35 +657,62 @@ fn drive_unit(h: &UnitHeader<R>, abbrevs: &gimli::Abbreviations, toks: &[Value],
     }
 }
 
-fn record_sections(info: &[u8], abbrev: &[u8], en: RunTimeEndian, built: Option<&Vec<Value>>, rng: &mut Rng,
+fn record_one(h: &UnitHeader<R>, da: &DebugAbbrev<R>, built: Option<&Vec<Value>>, rng: &mut Rng, evs: &mut Vec<Value>,
+              per_unit: usize, src: &str, max_toks: usize) -> bool {
+    let abbrevs = match h.abbreviations(da) {
+        Ok(a) => a,
+        Err(_) => return false,
+    };
+    let (toks, end) = match token_hint(h, &abbrevs, max_toks) {
+        Some(x) => x,
+        None => return false,
+    };
+    if toks.is_empty() {
+        return false;
+    }
+    evs.push(json!({"ev":"Unit","src":src,"toks":toks,"end":end,"root":h.root_offset().0,
+                    "hasbuilt": built.is_some(),
+                    "built": built.cloned().map(Value::Array).unwrap_or(json!([]))}));
+    drive_unit(h, &abbrevs, &toks, rng, evs, per_unit);
+    true
+}
+
+fn record_sections(info: &[u8], abbrev: &[u8], types: Option<&[u8]>, en: RunTimeEndian, built: Option<&Vec<Value>>, rng: &mut Rng,
                    evs: &mut Vec<Value>, max_units: usize, per_unit: usize, src: &str, max_toks: usize, skip: u64) {
-    let di = DebugInfo::new(info, en);
     let da = DebugAbbrev::new(abbrev, en);
-    let mut it = di.units();
+    let mut it = DebugInfo::new(info, en).units();
     let mut n = 0;
     while let Ok(Some(h)) = it.next() {
         if n >= max_units {
             break;
         }
-        let abbrevs = match h.abbreviations(&da) {
-            Ok(a) => a,
-            Err(_) => continue,
-        };
         if skip > 0 && rng.below(skip) != 0 {
             continue;
         }
-        let (toks, end) = match token_hint(&h, &abbrevs, max_toks) {
-            Some(x) => x,
-            None => continue,
-        };
-        if toks.is_empty() {
-            continue;
+        if record_one(&h, &da, built, rng, evs, per_unit, src, max_toks) {
+            n += 1;
         }
-        n += 1;
-        evs.push(json!({"ev":"Unit","src":src,"toks":toks,"end":end,"root":h.root_offset().0,
-                        "hasbuilt": built.is_some(),
-                        "built": built.cloned().map(Value::Array).unwrap_or(json!([]))}));
-        drive_unit(&h, &abbrevs, &toks, rng, evs, per_unit);
+    }
+    if let Some(t) = types {
+        let mut it = DebugTypes::new(t, en).units();
+        let mut n = 0;
+        while let Ok(Some(h)) = it.next() {
+            if n >= max_units {
+                break;
+            }
+            if record_one(&h, &da, built, rng, evs, per_unit, src, max_toks) {
+                n += 1;
+            }
+        }
+    }
+}
+
+fn record_dir(dir: &str, src: &str, rng: &mut Rng, evs: &mut Vec<Value>, max_units: usize, per_unit: usize, max_toks: usize, skip: u64) {
+    for (i, a, t) in [("debug_info", "debug_abbrev", "debug_types"), ("debug_info.dwo", "debug_abbrev.dwo", "debug_types.dwo")] {
+        if let (Ok(info), Ok(abbrev)) = (std::fs::read(format!("{}/{}", dir, i)), std::fs::read(format!("{}/{}", dir, a))) {
+            let types = std::fs::read(format!("{}/{}", dir, t)).ok();
+            record_sections(&info, &abbrev, types.as_deref(), RunTimeEndian::Little, None, rng, evs, max_units, per_unit, src, max_toks, skip);
+        }
     }
 }
 
@@ -774,15 +801,25 @@ fn record(out: &str, a: &Args) {
         }
         let info = sections.debug_info.slice().to_vec();
         let abbrev = sections.debug_abbrev.slice().to_vec();
-        record_sections(&info, &abbrev, endian(le), Some(&built), &mut rng, &mut evs, 1, per_unit, "writer", 100_000, 0);
+        record_sections(&info, &abbrev, None, endian(le), Some(&built), &mut rng, &mut evs, 1, per_unit, "writer", 100_000, 0);
     }
-    // the repository's own fixture
+    // the repository's own fixture and the compiled corpus
     let fx = a.opt("--fixture").unwrap_or("");
     if !fx.is_empty() {
-        if let (Ok(info), Ok(abbrev)) = (std::fs::read(format!("{}/debug_info", fx)), std::fs::read(format!("{}/debug_abbrev", fx))) {
-            let units = a.num("--fixture-units", 8) as usize;
-            let max_toks = a.num("--fixture-max", 6000) as usize;
-            record_sections(&info, &abbrev, RunTimeEndian::Little, None, &mut rng, &mut evs, units, per_unit, "fixture", max_toks, 3);
+        let units = a.num("--fixture-units", 8) as usize;
+        let max_toks = a.num("--fixture-max", 6000) as usize;
+        record_dir(fx, "fixture", &mut rng, &mut evs, units, per_unit, max_toks, 3);
+    }
+    if let Some(c) = a.opt("--corpus") {
+        let mut dirs: Vec<_> = std::fs::read_dir(c).map(|d| d.filter_map(|e| e.ok()).map(|e| e.path()).collect()).unwrap_or_default();
+        dirs.sort();
+        let steps = a.num("--corpus-steps", 120) as usize;
+        for d in dirs {
+            let name = d.file_name().and_then(|n| n.to_str()).unwrap_or("").to_string();
+            if !d.is_dir() || name.ends_with("_dwp") {
+                continue; // packages need the index sections to find each unit's abbreviations
+            }
+            record_dir(d.to_str().unwrap_or(""), &format!("corpus/{}", name), &mut rng, &mut evs, 6, steps, 6000, 0);
         }
     }
     write_lines(out, &evs);
